@@ -8,6 +8,7 @@ import (
 	"fmt"
 	"os"
 	"reflect"
+	"sort"
 	"strings"
 	"testing"
 
@@ -107,6 +108,17 @@ type Op struct {
 	Inside string `json:"inside,omitempty"`
 }
 
+func (o Op) constraintString() string {
+	s := ""
+	if o.Before != "" {
+		s += "Before(" + o.Before + ")."
+	}
+	if o.After != "" {
+		s += "After(" + o.After + ")."
+	}
+	return s
+}
+
 func (o Op) String() string {
 	if o.Inside != "" {
 		in := o.Inside
@@ -126,7 +138,7 @@ func (o Op) String() string {
 		}
 		return s + "Register(" + o.Name + ")"
 	case "replace":
-		return o.matchString() + "Replace(" + o.Name + ")"
+		return o.matchString() + o.constraintString() + "Replace(" + o.Name + ")"
 	}
 	return "Remove(" + o.Name + ")"
 }
@@ -234,6 +246,7 @@ func apply(c Case) []stepResult {
 		}
 	}
 	versions := map[string]int{}
+	broken := false // an earlier call of the history returned an error
 	out := make([]stepResult, 0, len(c.Ops))
 	for _, o := range c.Ops {
 		var e error
@@ -278,11 +291,20 @@ func apply(c Case) []stepResult {
 				}
 			case "replace":
 				versions[o.Name]++
-				if o.Match == "" {
+				if o.Match == "" && o.Before == "" && o.After == "" {
 					e = proc.Replace(o.Name, stub(o.Name, versions[o.Name]))
 				} else {
-					want := o.Match == "t"
-					cb := pv.MethodByName("Match").Call([]reflect.Value{reflect.ValueOf(func(*gorm.DB) bool { return want })})[0]
+					cb := pv
+					if o.Match != "" {
+						want := o.Match == "t"
+						cb = cb.MethodByName("Match").Call([]reflect.Value{reflect.ValueOf(func(*gorm.DB) bool { return want })})[0]
+					}
+					if o.Before != "" {
+						cb = cb.MethodByName("Before").Call([]reflect.Value{reflect.ValueOf(o.Before)})[0]
+					}
+					if o.After != "" {
+						cb = cb.MethodByName("After").Call([]reflect.Value{reflect.ValueOf(o.After)})[0]
+					}
 					r := cb.MethodByName("Replace").Call([]reflect.Value{reflect.ValueOf(o.Name), reflect.ValueOf(stub(o.Name, versions[o.Name]))})[0]
 					if !r.IsNil() {
 						e = r.Interface().(error)
@@ -297,16 +319,22 @@ func apply(c Case) []stepResult {
 			log = nil
 			exec.Execute(db.Session(&gorm.Session{NewDB: true}).Table("t"))
 			during = append([]fired{}, log...)
-			if pending != nil { // the callback did not fire: the harness chose a name that is not live
+			if pending != nil {
 				pending = nil
-				panic("harness: Inside names a callback that did not fire: " + o.Inside)
+				if !broken { // the callback did not fire: the harness chose a name that is not live
+					panic("harness: Inside names a callback that did not fire: " + o.Inside)
+				}
+				doOp() // after a rejected call nothing may run at all: make the call directly
+				during = nil
 			}
 		} else {
 			doOp()
 		}
 		if e != nil {
+			// the history goes on: what later calls do after a rejected one is judged too
+			broken = true
 			out = append(out, stepResult{err: e})
-			return out
+			continue
 		}
 		log = nil
 		exec.Execute(db.Session(&gorm.Session{NewDB: true}).Table("t"))
@@ -352,6 +380,9 @@ type reg struct {
 	// "every registered callback exactly once" is read per name with the latest handler (what
 	// Get(name) returns); WHERE such a name runs is not defined, so no position is asserted for it.
 	dup bool
+	// constraints given with a later Replace of the name: it keeps its position, so the call either
+	// fails or the constraint already holds
+	extra [][2]string // {before, after}
 }
 
 type model struct {
@@ -366,6 +397,29 @@ func newModel(pipeline string) *model {
 		m.live[b] = &reg{builtin: true}
 	}
 	return m
+}
+
+// signature identifies a model state (live names with their constraints and handler generations).
+func (m *model) signature() string {
+	var parts []string
+	for n, r := range m.live {
+		parts = append(parts, fmt.Sprintf("%s|%s|%s|%v|%d|%v|%v", n, r.before, r.after, r.builtin, r.version, r.dup, r.extra))
+	}
+	sort.Strings(parts)
+	return strings.Join(parts, ";")
+}
+
+func (m *model) clone() *model {
+	c := &model{pipeline: m.pipeline, live: map[string]*reg{}, gen: map[string]int{}}
+	for n, r := range m.live {
+		x := *r
+		x.extra = append([][2]string(nil), r.extra...)
+		c.live[n] = &x
+	}
+	for n, g := range m.gen {
+		c.gen[n] = g
+	}
+	return c
 }
 
 func (m *model) step(o Op) {
@@ -389,6 +443,11 @@ func (m *model) step(o Op) {
 		m.gen[o.Name]++
 		if r, live := m.live[o.Name]; live {
 			r.version = m.gen[o.Name]
+			if o.Before != "" || o.After != "" {
+				r.extra = append(r.extra, [2]string{o.Before, o.After})
+			}
+		} else if o.Before != "" || o.After != "" {
+			m.live[o.Name] = &reg{before: o.Before, after: o.After, version: m.gen[o.Name]}
 		} else {
 			// nothing to replace: the call registers the name (gorm appends it like Register would);
 			// it is then a registered, non-removed callback without a Before/After of its own
@@ -470,6 +529,14 @@ func (m *model) check(f []fired) error {
 				return fmt.Errorf("%q registered After(%s) fired before it", name, r.after)
 			}
 		}
+		for _, x := range r.extra {
+			if x[0] != "" && x[0] != "*" && anchorOK(x[0]) && pos[name] > pos[x[0]] {
+				return fmt.Errorf("Before(%s).Replace(%q) returned no error, yet %q fires after %s", x[0], name, name, x[0])
+			}
+			if x[1] != "" && x[1] != "*" && anchorOK(x[1]) && pos[name] < pos[x[1]] {
+				return fmt.Errorf("After(%s).Replace(%q) returned no error, yet %q fires before %s", x[1], name, name, x[1])
+			}
+		}
 	}
 	return nil
 }
@@ -536,6 +603,15 @@ func (m *model) acyclic(withStar bool) bool {
 	return true
 }
 
+func noError(res []stepResult) bool {
+	for _, r := range res {
+		if r.err != nil {
+			return false
+		}
+	}
+	return len(res) > 0
+}
+
 func builtinFired(pipeline string) []fired {
 	var f []fired
 	for _, b := range builtins[pipeline] {
@@ -597,9 +673,59 @@ func names(f []fired) string {
 func checkCase(c Case) string {
 	res := apply(c)
 	m := newModel(c.Pipeline)
+	var cands []*model // after a rejected call: the readings "it took effect" / "it did not"
 	for i, r := range res {
 		if r.err != nil {
-			return "" // an error is a valid outcome; the history ends here
+			// an error is a valid outcome of that call. What the call left behind is not stated, so
+			// from here on a later call that returns nil must give a pipeline that is right under at
+			// least one reading (up to 8 are kept)
+			if cands == nil {
+				cands = []*model{m}
+			}
+			var next []*model
+			seen := map[string]bool{}
+			for _, x := range cands {
+				y := x.clone()
+				y.step(c.Ops[i])
+				x.gen = map[string]int{} // handler numbering moves on in both readings
+				for n, g := range y.gen {
+					x.gen[n] = g
+				}
+				for _, z := range []*model{x, y} {
+					if sig := z.signature(); !seen[sig] {
+						seen[sig] = true
+						next = append(next, z)
+					}
+				}
+			}
+			if len(next) > 32 {
+				return "" // too many readings to follow: nothing is asserted for the rest of the history
+			}
+			cands = next
+			continue
+		}
+		if cands != nil && c.Ops[i].Kind == "reopen" {
+			continue // no call on this pipeline: it stays as the rejected call left it
+		}
+		if cands != nil {
+			var ok []*model
+			var first error
+			for _, x := range cands {
+				x.step(c.Ops[i])
+				if err := x.check(r.fired); err == nil {
+					ok = append(ok, x)
+				} else if first == nil {
+					first = err
+				}
+			}
+			if len(ok) == 0 {
+				return fmt.Sprintf("after step %d (%s), which returned nil after an earlier call of the history had been rejected: %v (no reading of the rejected call explains it); fired order: %s", i+1, c.Ops[i], first, names(r.fired))
+			}
+			cands = ok
+			if fmt.Sprint(r.fired) != fmt.Sprint(r.firedErr) {
+				return fmt.Sprintf("after step %d (%s): run for a statement that already carries an error fired %s, the ordinary run fired %s", i+1, c.Ops[i], names(r.firedErr), names(r.fired))
+			}
+			continue
 		}
 		old := map[string]int{}
 		for n, x := range m.live {
@@ -629,7 +755,7 @@ func checkCase(c Case) string {
 	}
 	// Replace takes the replaced callback's position: the final order must be
 	// the order of the same history without its Replace calls.
-	hasReplace := false
+	hasReplace, constrainedReplace := false, false
 	var without Case
 	without.Pipeline, without.Via = c.Pipeline, c.Via
 	wm := newModel(c.Pipeline)
@@ -637,6 +763,8 @@ func checkCase(c Case) string {
 		if o.Kind == "replace" && o.Match != "f" {
 			if _, live := wm.live[o.Name]; live {
 				hasReplace = true
+				// a constraint given with the Replace stays with the callback and may move it later
+				constrainedReplace = constrainedReplace || o.Before != "" || o.After != ""
 				wm.step(o)
 				continue
 			}
@@ -645,7 +773,7 @@ func checkCase(c Case) string {
 		wm.step(o)
 		without.Ops = append(without.Ops, o)
 	}
-	if hasReplace && len(res) == len(c.Ops) {
+	if hasReplace && !constrainedReplace && cands == nil {
 		wres := apply(without)
 		if len(without.Ops) == 0 {
 			// compare with the untouched built-in order
@@ -653,7 +781,7 @@ func checkCase(c Case) string {
 			if got := names(res[len(res)-1].fired); got != want {
 				return fmt.Sprintf("Replace moved a callback: order %s, want %s", got, want)
 			}
-		} else if len(wres) == len(without.Ops) && wres[len(wres)-1].err == nil {
+		} else if noError(wres) {
 			got, want := names(res[len(res)-1].fired), names(wres[len(wres)-1].fired)
 			if got != want {
 				return fmt.Sprintf("Replace did not keep the replaced callback's position: order %s, without the Replace calls %s", got, want)
@@ -701,6 +829,9 @@ func classes(c Case, errored bool) []string {
 		}
 		if o.Inside != "" {
 			seen["op:called-inside-the-running-pipeline"] = true
+		}
+		if o.Kind == "replace" && (o.Before != "" || o.After != "") {
+			seen["op:replace-with-constraint"] = true
 		}
 		seen["op:"+k] = true
 	}
@@ -771,7 +902,7 @@ func forwardRef(c Case) bool {
 	c = normalised(c)
 	constraints := 0
 	for _, o := range c.Ops {
-		if o.Kind == "register" {
+		if o.Kind == "register" || o.Kind == "replace" { // a Replace may carry constraints as well
 			if o.Before != "" && o.Before != unknown {
 				constraints++
 			}
@@ -827,6 +958,11 @@ func forwardRef(c Case) bool {
 			if o.After != "" && parties[o.After] && !fwd[ref{o.Name, o.After}] {
 				return true
 			}
+		case "replace":
+			// a Replace that carries a constraint and touches a party (replaces it or names it)
+			if (o.Before != "" || o.After != "") && (parties[o.Name] || parties[o.Before] || parties[o.After]) {
+				return true
+			}
 		}
 	}
 	return false
@@ -862,7 +998,7 @@ func starAsAnchor(c Case) bool {
 		}
 	}
 	for _, o := range c.Ops {
-		if o.Kind == "register" && (star[o.Before] || star[o.After]) {
+		if (o.Kind == "register" || o.Kind == "replace") && (star[o.Before] || star[o.After]) {
 			return true
 		}
 	}
@@ -887,7 +1023,7 @@ func runCase(t interface{ Fatalf(string, ...interface{}) }, c Case, test string)
 	}
 	evid.Journal(string(b))
 	res := apply(c)
-	errored := len(res) > 0 && res[len(res)-1].err != nil
+	errored := !noError(res)
 	evid.Case(c.String(), nontrivial(c), c.String(), classes(c, errored)...)
 	if msg := checkCase(c); msg != "" {
 		t.Fatalf("C17 violated by %s\n  %s", c, msg)
@@ -973,6 +1109,23 @@ func nextOps(m *model, nCustom int, reducedCombos bool) []Op {
 		}
 	}
 	ops = append(ops, Op{Kind: "remove", Name: unknown}, Op{Kind: "reopen"})
+	// Replace carrying a constraint of its own: the replaced callback keeps its position, so the call
+	// fails or the constraint already holds
+	for _, n := range liveNamesOf(m) {
+		isCustom := strings.HasPrefix(n, "c")
+		if reducedCombos && !isCustom {
+			continue // exhaustive tier: for custom callbacks only (cost)
+		}
+		if r := m.live[n]; (r.before == "*" || r.after == "*") && harness.OpenClass("C17", "replace-star") {
+			continue // listed finding: Replace of a callback registered with '*'
+		}
+		for _, x := range red {
+			if _, anchorLive := m.live[x]; x == n || !anchorLive {
+				continue // the anchor is registered now: no forward reference, no '*'
+			}
+			ops = append(ops, Op{Kind: "replace", Name: n, Before: x}, Op{Kind: "replace", Name: n, After: x})
+		}
+	}
 	// calls made from inside the running pipeline: a callback that unregisters itself, and one that
 	// registers another
 	for _, c := range customs {
@@ -1041,11 +1194,12 @@ func TestC17Exhaustive(t *testing.T) {
 				if failed && t.Failed() && count > 0 && os.Getenv("VERIF_C17_ALL") == "" {
 					t.FailNow()
 				}
+				if o.Kind == "replace" && (o.Before != "" || o.After != "") {
+					continue // as the last call of a history only
+				}
 				if len(ops) < maxLen {
 					res := apply(c)
-					if res[len(res)-1].err != nil {
-						continue // history ended with an error
-					}
+					_ = res // a history goes on after a rejected call
 					if harness.OpenClass("C17", "constraint-cycle") && hasConstraintCycle(c) {
 						continue
 					}
@@ -1113,6 +1267,12 @@ func TestC17Random(t *testing.T) {
 				sub = choices
 			}
 			o := rapid.SampledFrom(sub).Draw(rt, "op")
+			if o.Kind == "replace" && (o.Before != "" || o.After != "") && i != n-1 {
+				// a constraint given with a Replace stays with the callback and takes part in every later
+				// sort (the ad-hoc sorter's rewriting of constraints, see the listed findings): it is
+				// generated as the last call of a history only
+				o.Before, o.After = "", ""
+			}
 			if o.Inside == "" && o.Kind != "reopen" && rapid.IntRange(0, 4).Draw(rt, "inside") == 0 {
 				if live := sortedLive(m); len(live) > 0 {
 					o.Inside = rapid.SampledFrom(live).Draw(rt, "insideOf")
@@ -1125,6 +1285,8 @@ func TestC17Random(t *testing.T) {
 		runCase(rt, Case{Pipeline: pl, Ops: ops, Via: via}, "TestC17Random")
 	})
 }
+
+func liveNamesOf(m *model) []string { return sortedLive(m) }
 
 func sortedLive(m *model) []string {
 	var out []string
